@@ -22,6 +22,16 @@ def _elementwise(x, k=2.0):
     return x * k + 1
 
 
+def _to_complex(x, k=2.0):
+    """element-wise, output dtype differs from the input dtype (real -> complex)"""
+    return x * k + 1j * x
+
+
+def _widen(x, k=2.0):
+    """element-wise, float32 -> float64"""
+    return (x * k).astype("f8")
+
+
 class _Counting:
     """array-like whose element access is counted (materialisation sentinel)"""
 
@@ -88,7 +98,7 @@ class Prop(PropBase):
         "to_linear_circular": ["DualPolarizationSignal"], "to_stokes": ["DualPolarizationSignal"],
         "stft": ["BasebandSignal", "DualPolarizationSignal"], "istft": ["BasebandSignal", "DualPolarizationSignal"],
         "rawfft": ["Signal"],
-        "signal_transform": sigs.CLASSES,
+        "signal_transform": sigs.CLASSES + ["Signal", "Signal"],
         "container": sigs.CLASSES,
     }
 
@@ -164,7 +174,7 @@ class Prop(PropBase):
         if op == "rawfft":
             return {"fn": rng.choice(["fft", "ifft", "fft2", "fftn", "rfft"]), "axis": rng.randrange(len(shape))}
         if op == "signal_transform":
-            return {"k": rng.choice([2.0, -0.5, 3.0])}
+            return {"k": rng.choice([2.0, -0.5, 3.0]), "fn": rng.choice(["same", "complex", "widen"])}
         if op == "container":
             return {"method": rng.choice(["compute", "persist", "to_dask_array", "rechunk", "rechunk_explicit"])}
         return {}
@@ -237,7 +247,10 @@ class Prop(PropBase):
         if op == "to_stokes":
             return z.to_stokes()
         if op == "signal_transform":
-            f = pb.signal_transform(_elementwise)
+            fn = {"same": _elementwise, "complex": _to_complex, "widen": _widen}[a.get("fn", "same")]
+            if a.get("fn", "same") != "same" and type(z).__name__ != "Signal":
+                fn = _elementwise          # the radio classes constrain the dtype: keep dtype-preserving functions there
+            f = pb.signal_transform(fn)
             return f(z, k=a["k"])
         if op == "stft":
             return pb.contrib.stft(z, nperseg=a["nperseg"])
@@ -353,7 +366,7 @@ class Prop(PropBase):
                 r2_d = self._apply(c2, zd)
                 j1, j2 = dask.compute(r_d.data, r2_d.data, **self._sched(c["sched"]))
                 out["joint_diff"] = self._close(j1, r_np.data, fftish) or self._close(j2, r2_np.data, fftish)
-                st = da.stack([r_d.data, r2_d.data]) if r_d.shape == r2_d.shape else None
+                st = da.stack([r_d.data, r2_d.data]) if (r_d.shape == r2_d.shape and r_d.dtype == r2_d.dtype) else None
                 if st is not None:
                     both = st.compute(**self._sched(c["sched"]))
                     out["joint_diff"] = out["joint_diff"] or self._close(both[0], r_np.data, fftish) or self._close(both[1], r2_np.data, fftish)
